@@ -76,12 +76,14 @@ def run_pass(mod, name: str, ctx=None, **kwargs):
     return mod
 
 
-class PassTimeout(Exception):
-    pass
+class PassTimeout(BaseException):
+    """Raised by `time_limit`. A BaseException on purpose: xDSL's pattern driver intercepts `Exception`s raised inside a pattern and
+    re-raises them with a printed copy of the whole module, which can take very long on a module that a runaway rewrite has blown up."""
 
 
 class time_limit:
-    """Wall-clock guard around code under test that may not terminate (SIGALRM; main thread only).
+    """Guard around code under test that may not terminate (main thread only).
+    The budget is process CPU time (ITIMER_PROF), so a heavily loaded machine does not turn slow cases into rejections.
     A hit is 'inconclusive' (Reject), never a violation."""
 
     def __init__(self, seconds: float):
@@ -91,15 +93,15 @@ class time_limit:
         import signal
 
         def handler(signum, frame):
-            raise PassTimeout(f"no result within {self.seconds}s")
+            raise PassTimeout(f"no result within {self.seconds}s of CPU time")
 
-        self._old = signal.signal(signal.SIGALRM, handler)
-        signal.setitimer(signal.ITIMER_REAL, self.seconds)
+        self._old = signal.signal(signal.SIGPROF, handler)
+        signal.setitimer(signal.ITIMER_PROF, self.seconds)
         return self
 
     def __exit__(self, *exc):
         import signal
 
-        signal.setitimer(signal.ITIMER_REAL, 0)
-        signal.signal(signal.SIGALRM, self._old)
+        signal.setitimer(signal.ITIMER_PROF, 0)
+        signal.signal(signal.SIGPROF, self._old)
         return False
